@@ -16,8 +16,8 @@ import gram  # noqa: E402
 import gramcheck  # noqa: E402
 import vlib  # noqa: E402
 
-QUICK = ["SwExpr", "SwStmt", "SwTypes", "SwFb", "SwProg", "SwFunc", "SwSfc", "SwConfig","Expr2", "ExprS3", "FbS3", "FbStr3", "ProgStr3", "FuncS3", "ProgS3", "ConfigS5", "Stmt2", "Types3", "Fb2", "Prog2", "Func2", "Sfc3", "Config3", "Lib1"]
-THOROUGH = ["SwExpr", "SwStmt", "SwTypes", "SwFb", "SwProg", "SwFunc", "SwSfc", "SwConfig","Expr3", "ExprS4", "FbS4", "FbStr4", "ProgStr4", "FuncS4", "ProgS4", "ConfigS5", "Stmt3", "Types4", "Fb3", "Prog3", "Func3", "Sfc4", "Config4", "Lib2"]
+QUICK = ["SwExpr", "SwStmt", "SwTypes", "SwFb", "SwProg", "SwFunc", "SwSfc", "SwConfig","Expr2", "ExprS3", "FbS3", "FbE4", "FbStr3", "ProgStr3", "FuncS3", "ProgS3", "ConfigS5", "Stmt2", "Types3", "Fb2", "Prog2", "Func2", "Sfc3", "Config3", "Lib1"]
+THOROUGH = ["SwExpr", "SwStmt", "SwTypes", "SwFb", "SwProg", "SwFunc", "SwSfc", "SwConfig","Expr3", "ExprS4", "FbS4", "FbE4", "FbStr4", "ProgStr4", "FuncS4", "ProgS4", "ConfigS5", "Stmt3", "Types4", "Fb3", "Prog3", "Func3", "Sfc4", "Config4", "Lib2"]
 
 
 def main():
